@@ -4,4 +4,4 @@ set -e
 export PATH=/root/go/pkg/mod/golang.org/toolchain@v0.0.1-go1.25.0.linux-amd64/bin:$PATH
 export GOTOOLCHAIN=local GOFLAGS=-mod=mod GOPROXY=off GOSUMDB=off
 mkdir -p /verif/bin
-cd /verif/engine && go build -o /verif/bin/gosmt .
+cd /verif/engine && go build -o /verif/bin/gosmt.new . && mv -f /verif/bin/gosmt.new /verif/bin/gosmt
